@@ -719,6 +719,8 @@ def check_confinement(facts, run, eff, cg):
                         t = ft.rvalue(st["rv"], b, i)
                         if t[0] == "agg" and any(_is_site(o, site) for o in t[3]):
                             if t[1] == "closure":
+                                if t[2] in getattr(facts, "consumed_closures", ()):
+                                    continue   # every call of this closure was spliced in here: its uses of the reference are the uses examined above
                                 bad_use = _closure_keeps_receiver_only(facts, ft, t, [k for k, o in enumerate(t[3]) if _is_site(o, site)])
                                 if bad_use is None:
                                     continue   # captured by a closure that is consumed here and only calls methods on it
